@@ -8,7 +8,10 @@
 // seams that realise every op's probe-responder / durability-ack sets.
 //
 // ops (all fields space separated):
-//   cfg N Q CAP                       first op of a case (else defaults 3 2 2)
+//   cfg N Q CAP [H K]                 first op of a case (else defaults 3 2 2 0 0); H=1: the round's
+//                                     foreground hedge follower is admitted at once; K=1: voters are real
+//                                     MessageDB stores (channelstore.NewMessageDBFactory) instead of memory
+//   repair l f NF                     follower gap repair l→f from offset NF (real runtimeRepairOwner.repair)
 //   install n e t f w q PROBE ACK     PROBE: per voter 1|0|f|p   ACK: per voter D|L|X
 //   commit  n e t f c k p ACK         command c, k records, content variant p
 //   crash n / restart n
@@ -19,8 +22,10 @@ import (
 	"context"
 	"encoding/binary"
 	"fmt"
+	"os"
 	"strconv"
 	"strings"
+	"time"
 
 	ch "github.com/WuKongIM/WuKongIM/pkg/channel"
 	"github.com/WuKongIM/WuKongIM/pkg/channel/replication"
@@ -33,6 +38,8 @@ const (
 	replMaxCmd = 1 << 20
 )
 
+// replChannelID is re-salted per MessageDB case: the recovery barrier's message id is a hash of
+// the authority (incl. the channel id) and MessageDB indexes message ids DB-wide.
 var replChannelID = ch.ChannelID{ID: "verif", Type: 1}
 
 type replNode struct {
@@ -47,6 +54,11 @@ type replRunner struct {
 	started bool
 	n, q    int
 	cap     int
+	hedge   bool
+	kind    int
+	salt    uint64 // per-case salt of message ids (MessageDB indexes message ids DB-wide)
+	dbs     []*channelstore.MessageDBFactory
+	dirs    []string
 	nodes   []*replNode // index = id-1
 	owner   map[replication.AuthorityID]int
 	digests map[ch.EntryDigest]int
@@ -57,20 +69,86 @@ type replRunner struct {
 
 func newReplRunner() *replRunner {
 	r := &replRunner{}
-	r.configure(3, 2, 2)
+	r.configure(3, 2, 2, false, 0)
 	return r
 }
 
-func (r *replRunner) Close() {}
+func (r *replRunner) Close() {
+	for _, f := range r.dbs {
+		_ = f.Close()
+	}
+	for _, d := range r.dirs {
+		_ = os.RemoveAll(d)
+	}
+	r.dbs, r.dirs = nil, nil
+}
 
-func (r *replRunner) configure(n, q, cap int) {
-	r.n, r.q, r.cap = n, q, cap
+// One real MessageDB per voter index and harness process; every case gets its own channel
+// inside it (opening a Pebble instance per voter and case would dominate the run time).
+// Message ids are salted per case because MessageDB keeps a DB-wide message-id index.
+var (
+	replSharedMdb = map[int]*channelstore.MessageDBFactory{} // voter index -> its DB
+	replMdbSeq    int
+	replCaseSeq   uint64
+)
+
+type replRenameFactory struct {
+	inner  *channelstore.MessageDBFactory
+	suffix string
+}
+
+func (f replRenameFactory) rename(key ch.ChannelKey, id ch.ChannelID) (ch.ChannelKey, ch.ChannelID) {
+	return ch.ChannelKey(string(key) + f.suffix), ch.ChannelID{ID: id.ID + f.suffix, Type: id.Type}
+}
+
+func (f replRenameFactory) ChannelStore(key ch.ChannelKey, id ch.ChannelID) (channelstore.ChannelStore, error) {
+	k, i := f.rename(key, id)
+	return f.inner.ChannelStore(k, i)
+}
+
+func (f replRenameFactory) AppendLeaderBatch(ctx context.Context, items []channelstore.AppendLeaderBatchItem) []channelstore.AppendLeaderBatchResult {
+	renamed := make([]channelstore.AppendLeaderBatchItem, len(items))
+	for n, it := range items {
+		it.ChannelKey, it.ChannelID = f.rename(it.ChannelKey, it.ChannelID)
+		renamed[n] = it
+	}
+	return f.inner.AppendLeaderBatch(ctx, renamed)
+}
+
+func (r *replRunner) factory(voter int) channelstore.Factory {
+	if r.kind == 0 {
+		return channelstore.NewMemoryFactory()
+	}
+	if replSharedMdb[voter] == nil {
+		base := os.Getenv("VERIF_SCRATCH")
+		if base == "" {
+			base = "."
+		}
+		dir, err := os.MkdirTemp(base, "mdb")
+		if err != nil {
+			panic(err)
+		}
+		replSharedMdb[voter] = channelstore.NewMessageDBFactory(dir)
+	}
+	replMdbSeq++
+	return replRenameFactory{inner: replSharedMdb[voter], suffix: fmt.Sprintf("#%d", replMdbSeq)}
+}
+
+func (r *replRunner) configure(n, q, cap int, hedge bool, kind int) {
+	r.Close()
+	replCaseSeq++
+	r.salt = replCaseSeq << 32
+	replChannelID = ch.ChannelID{ID: "verif", Type: 1}
+	if kind == 1 {
+		replChannelID = ch.ChannelID{ID: fmt.Sprintf("verif%d", replCaseSeq), Type: 1}
+	}
+	r.n, r.q, r.cap, r.hedge, r.kind = n, q, cap, hedge, kind
 	r.nodes = nil
 	r.owner = map[replication.AuthorityID]int{}
 	r.digests = map[ch.EntryDigest]int{}
 	for i := 1; i <= n; i++ {
 		store, err := replication.NewStoreAdapter(replication.StoreAdapterConfig{
-			Factory: channelstore.NewMemoryFactory(), MaxBatchItems: 4, MaxBatchBytes: 1 << 20,
+			Factory: r.factory(i), MaxBatchItems: 4, MaxBatchBytes: 1 << 20,
 		})
 		if err != nil {
 			panic(err)
@@ -140,6 +218,9 @@ func (s *replSeams) SubmitLocal(p replication.VerifProposal) replication.VerifCo
 		return replication.VerifCompletion{Outcome: ch.AppendOutcomeDefinitelyNotWritten, Err: replication.VerifErrLinkDown}
 	}
 	results := s.node.store.Sync(context.Background(), []replication.Mutation{replMutation(p, replication.MutationClassLeaderQuorum)})
+	if os.Getenv("VERIF_DEBUG") != "" && len(results) == 1 {
+		fmt.Fprintf(os.Stderr, "local sync: %+v err=%v\n", results[0].Outcome, results[0].Err)
+	}
 	if spec == 'L' || len(results) != 1 {
 		return replication.VerifCompletion{Outcome: ch.AppendOutcomeUnknown, Err: replication.VerifErrLinkDown}
 	}
@@ -172,10 +253,34 @@ func (s *replSeams) SubmitReplica(voter ch.NodeID, p replication.VerifProposal) 
 		return replication.VerifReplicaCompletion(voter, replication.ReplicateResult{}, replication.VerifErrLinkDown)
 	}
 	result, err := s.replicate(voter, p, replication.ExchangePriorityForeground)
+	if os.Getenv("VERIF_DEBUG") != "" {
+		fmt.Fprintf(os.Stderr, "replicate -> %d: %+v err=%v\n", voter, result.Status, err)
+	}
 	if spec == 'L' {
 		return replication.VerifReplicaCompletion(voter, replication.ReplicateResult{}, replication.VerifErrLinkDown)
 	}
 	return replication.VerifReplicaCompletion(voter, result, err)
+}
+
+func (s *replSeams) HedgeDelay() time.Duration {
+	if s.r.hedge {
+		return 0
+	}
+	return time.Hour
+}
+
+// replLink is the transport of a follower repair: reachable iff the target is up
+type replLink struct {
+	r    *replRunner
+	from ch.NodeID
+}
+
+func (l replLink) Exchange(ctx context.Context, node ch.NodeID, batch replication.ExchangeBatch) (replication.ExchangeBatchResult, error) {
+	i := int(node) - 1
+	if i < 0 || i >= len(l.r.nodes) || !l.r.nodes[i].up {
+		return replication.ExchangeBatchResult{}, replication.VerifErrLinkDown
+	}
+	return l.r.nodes[i].server.Handle(ctx, l.from, batch)
 }
 
 func (s *replSeams) SubmitDeferred(voter ch.NodeID, p replication.VerifProposal) {
@@ -249,12 +354,12 @@ func replCmdStr(id ch.CommandID) string {
 
 // replRecords: record j of (c,k,p) has abstract content p*8+j; every digest-bound
 // field is a function of (c, p, j) only.
-func replRecords(epoch, c uint64, k, p int) []ch.Record {
+func replRecords(salt, epoch, c uint64, k, p int) []ch.Record {
 	recs := make([]ch.Record, k)
 	for j := 0; j < k; j++ {
 		payload := []byte(fmt.Sprintf("c%d-p%d-j%d", c, p, j))
 		recs[j] = ch.Record{
-			ID: 1 + c*64 + uint64(p)*8 + uint64(j), Epoch: epoch, FromUID: fmt.Sprintf("u%d", p),
+			ID: salt + 1 + c*64 + uint64(p)*8 + uint64(j), Epoch: epoch, FromUID: fmt.Sprintf("u%d", p),
 			ClientMsgNo: fmt.Sprintf("m%d-%d", c, j), ServerTimestampMS: int64(1000 + p*8 + j),
 			Payload: payload, SizeBytes: len(payload),
 		}
@@ -296,17 +401,26 @@ func (r *replRunner) Step(op string) string {
 
 func (r *replRunner) exec(f []string) string {
 	if f[0] == "cfg" {
-		if r.started || len(f) != 4 {
+		if r.started || (len(f) != 4 && len(f) != 6) {
 			return "bad-op"
 		}
 		n, ok1 := atoiU(f[1])
 		q, ok2 := atoiU(f[2])
 		cp, ok3 := atoiU(f[3])
+		var h, k uint64
+		if len(f) == 6 {
+			var ok4, ok5 bool
+			h, ok4 = atoiU(f[4])
+			k, ok5 = atoiU(f[5])
+			if !ok4 || !ok5 || h > 1 || k > 1 {
+				return "bad-op"
+			}
+		}
 		if !ok1 || !ok2 || !ok3 || n < 1 || n > replMaxN || q < 1 || q > n || cp < 1 || cp > 8 {
 			return "bad-op"
 		}
 		r.started = true
-		r.configure(int(n), int(q), int(cp))
+		r.configure(int(n), int(q), int(cp), h == 1, int(k))
 		return "ok"
 	}
 	r.started = true
@@ -328,6 +442,29 @@ func (r *replRunner) exec(f []string) string {
 		}
 		nd.up = false
 		nd.log = nil
+		return "ok"
+	case "repair":
+		if len(f) != 4 || node(f[1]) == nil || node(f[2]) == nil {
+			return "bad-op"
+		}
+		nf, ok := atoiU(f[3])
+		if !ok {
+			return "bad-op"
+		}
+		ld, fl := node(f[1]), node(f[2])
+		if !ld.up {
+			return "err notup"
+		}
+		if ld.id == fl.id {
+			return "err norepair"
+		}
+		repaired, valid := replication.VerifRepairFollower(ld.id, ld.store, replLink{r: r, from: ld.id}, replKey, replChannelID, fl.id, nf)
+		if !valid {
+			return "err norepair"
+		}
+		if !repaired {
+			return "err repair-failed"
+		}
 		return "ok"
 	case "restart":
 		if len(f) != 2 || node(f[1]) == nil {
@@ -401,7 +538,7 @@ func (r *replRunner) exec(f []string) string {
 			epoch = 1 // keep the records valid so that the authority guard is what rejects
 		}
 		prop := replication.Proposal{
-			Key: replKey, Expected: id, CommandID: replCmdID(c), Records: replRecords(epoch, c, int(k), int(p)),
+			Key: replKey, Expected: id, CommandID: replCmdID(c), Records: replRecords(r.salt, epoch, c, int(k), int(p)),
 		}
 		r.ack = ack
 		rc, err := nd.log.Commit(prop)
@@ -549,6 +686,9 @@ type replGenParams struct {
 	pBareQuorum   int // % of commit ack specs that are a bare quorum
 	pLostAcks     int
 	pMinorityResp int // % of installs with exactly Q responders
+	pRepair       int // weight of follower gap repair ops
+	pMdb          int // % of cases whose voters are real MessageDB stores
+	pSameTerm     int // % of cases starting with the same-term divergent-tail template
 }
 
 type replAuth struct{ e, t, f uint64 }
@@ -567,6 +707,7 @@ type replGenState struct {
 	installs int
 	ready    []bool // generator's own guess: the node's last install probably succeeded
 	lastCmd  [][3]int // last command each node was asked to commit (c,k,p); c=0 = none
+	records  int      // records the generator has asked to commit so far (rough log length)
 }
 
 func (s *replGenState) all(c byte) string { return strings.Repeat(string(c), s.n) }
@@ -764,6 +905,10 @@ func (s *replGenState) install(node int) {
 	q := s.q
 	if g.R.Chance(6) {
 		q = g.R.Range(0, s.n+1)
+		if s.n%2 == 0 && g.R.Bool() {
+			q = s.n / 2 // an even split is not a quorum: must be refused
+			g.Count("install:even-split-quorum")
+		}
 		g.Count("install:other-quorum")
 	}
 	if s.up[node-1] {
@@ -829,6 +974,25 @@ func (s *replGenState) replay() bool {
 	g.Count("commit:deposed-leader-replay")
 	g.Op("commit", "%d %d %d %d %d %d %d %s", node, a.e, a.t, a.f, c[0], c[1], c[2], s.ackSpec(node))
 	return true
+}
+
+// repair: follower gap repair from some node's log to another voter, from a small offset
+func (s *replGenState) repair() {
+	g := s.g
+	l := s.leader
+	if l == 0 || g.R.Chance(25) {
+		l = s.pickNode(true)
+	}
+	f := 1 + g.R.Intn(s.n)
+	if f == l && s.n > 1 && !g.R.Chance(5) {
+		f = 1 + (l % s.n)
+	}
+	nf := 1
+	if !g.R.Chance(35) {
+		nf = g.R.Range(0, minInt(s.records, 12)+1)
+	}
+	g.Count("repair")
+	g.Op("repair", "%d %d %d", l, f, nf)
 }
 
 func (s *replGenState) commit() {
@@ -906,6 +1070,7 @@ func (s *replGenState) commit() {
 	}
 	if c != 0 && k != 0 {
 		s.lastCmd[node-1] = [3]int{c, k, p}
+		s.records += k
 	}
 	g.Op("commit", "%d %d %d %d %d %d %d %s", node, a.e, a.t, a.f, c, k, p, s.ackSpec(node))
 }
@@ -941,7 +1106,17 @@ func replGenCase(g *Gen, p replGenParams) {
 		cp = 1
 	}
 	g.Count(fmt.Sprintf("cfg:N=%d", s.n))
-	g.Op("cfg", "%d %d %d", s.n, s.q, cp)
+	hedge, kind := 0, 0
+	if g.R.Bool() {
+		hedge = 1
+		g.Count("cfg:hedge-at-once")
+	}
+	sameTerm := s.n >= 2 && g.R.Chance(p.pSameTerm)
+	if g.R.Chance(p.pMdb) || (sameTerm && g.R.Bool()) {
+		kind = 1
+		g.Count("cfg:store=messagedb")
+	}
+	g.Op("cfg", "%d %d %d %d %d", s.n, s.q, cp, hedge, kind)
 	s.up = make([]bool, s.n)
 	for i := range s.up {
 		s.up[i] = true
@@ -950,7 +1125,47 @@ func replGenCase(g *Gen, p replGenParams) {
 	s.ready = make([]bool, s.n)
 	s.lastCmd = make([][3]int, s.n)
 	nops := g.R.Range(4, p.maxOps)
-	if s.n >= 2 && g.R.Chance(p.pScenario) {
+	if sameTerm {
+		// directed family: two authorities sharing a leader term (fence-only or epoch-only bump over an
+		// empty quorum log) write different entries at offset 1; a follower keeps the old one and is then
+		// offered the successor of the new one
+		g.Count("case:same-term-divergent-tail")
+		a1 := replAuth{1, uint64(g.R.Range(1, 2)), 1}
+		la := 1 + g.R.Intn(s.n)
+		x := 1 + (la % s.n) // the follower that keeps the old tail
+		s.owner[a1] = la
+		s.last[la-1], s.top, s.leader = a1, a1, la
+		g.Op("install", "%d %d %d %d 0 %d %s %s", la, a1.e, a1.t, a1.f, s.q, s.all('1'), s.all('D'))
+		spec := []byte(s.all('X'))
+		spec[x-1] = 'L'
+		s.nextCmd++
+		g.Op("commit", "%d %d %d %d %d 1 0 %s", la, a1.e, a1.t, a1.f, s.nextCmd, string(spec))
+		a2 := a1
+		if g.R.Chance(70) {
+			a2.f++
+		} else {
+			a2.e++
+		}
+		lb := la
+		if s.n > 2 && g.R.Bool() {
+			for lb == la || lb == x {
+				lb = 1 + g.R.Intn(s.n)
+			}
+		}
+		probe := []byte(s.all('1'))
+		probe[x-1] = '0'
+		s.owner[a2] = lb
+		s.last[lb-1], s.top, s.leader = a2, a2, lb
+		s.ready[lb-1] = true
+		g.Op("install", "%d %d %d %d 0 %d %s %s", lb, a2.e, a2.t, a2.f, s.q, string(probe), s.all('D'))
+		for i := 0; i < 2; i++ {
+			s.nextCmd++
+			s.cmds = append(s.cmds, [3]int{s.nextCmd, 1, 1})
+			g.Op("commit", "%d %d %d %d %d 1 1 %s", lb, a2.e, a2.t, a2.f, s.nextCmd, s.all('D'))
+		}
+		s.records += 3
+	}
+	if s.n >= 2 && !sameTerm && g.R.Chance(p.pScenario) {
 		// directed family: commits on a bare quorum, the leader goes away, a survivor takes over
 		g.Count("case:failover-template")
 		l := 1 + g.R.Intn(s.n)
@@ -978,7 +1193,7 @@ func replGenCase(g *Gen, p replGenParams) {
 		s.install(nl)
 	}
 	for i := 0; i < nops; i++ {
-		switch g.R.Pick(p.pInstall, p.pCommit, p.pCrash, p.pRestart) {
+		switch g.R.Pick(p.pInstall, p.pCommit, p.pCrash, p.pRestart, p.pRepair) {
 		case 0:
 			s.install(s.pickNode(true))
 		case 1:
@@ -1006,6 +1221,8 @@ func replGenCase(g *Gen, p replGenParams) {
 			} else {
 				s.commit()
 			}
+		case 4:
+			s.repair()
 		default:
 			var downs []int
 			for j, u := range s.up {
